@@ -187,6 +187,21 @@ def check(pid, tier, seed):
             mk = ["rm %s" % hx(vr)] + ["file %s %s" % (hx(vr + "/" + f), hx("K=1\n")) for f in ("etc/cfg.conf", "usr/etc/cfg.conf.d/a.conf", "usr/etc/cfg.conf.d/b.conf", "etc/cfg.conf.d/a.conf")]
             body_ = mk + ["cbreset", "cbdel %s %s" % (hx(vr + "/" + trig), hx(vr + "/" + victim)), rd] + ["free %d" % k for k in range(1, 7)] + ["cbreset"]
             single.append({"name": "vanish:%s:%s->%s" % (ent, trig, victim), "call": "free", "init": "null", "ops": ("none",), "script": twice(body_)})
+    # random conventional files of every grammar (plain, JOIN_SAME_ENTRIES: keys defined again / reset by an empty definition, with and
+    # without trailing comments; PYTHON_STYLE), some with a malformed line, read through an option object, listed in full, released
+    from gen import gram
+    from .p_parser import file_bytes
+    nf = 200 if tier == "quick" else 4000
+    for j in range(nf):
+        mode = rnd.choice(["join", "join", "python", "none"])
+        f = gram.random_file(rnd, rnd.randint(2, 14), mode, 0.15)
+        optstr = {"join": "JOIN_SAME_ENTRIES=1", "python": "PYTHON_STYLE=1", "none": ""}[mode]
+        fr = R + "/of%d" % (j % 8)
+        dl, cm = bytes(f["par"]["delim"]), bytes(f["par"]["comment"])
+        body_ = ["newopt 1 %s" % hx((optstr + ";" if optstr else "") + "ROOT_PREFIX=" + fr),
+                 "readconfig 1 - - %s %s %s %s" % (hx("p"), hx("conf"), hx(dl), hx(cm)), "dumpx 1", "free 1"]
+        single.append({"name": "optfile-%d" % j, "call": "free", "init": "null", "ops": ("none",),
+                       "script": ["rm %s" % hx(fr), "file %s %s" % (hx(fr + "/etc/p.conf"), hx(file_bytes(f["lines"], rnd.random() < 0.8)))] + twice(body_)})
     nh = 150 if tier == "quick" else 3000
     for j in range(nh):
         h = p_keyfile.random_history(rnd, "lc-%d" % j, rnd.randint(5, 60))
@@ -202,6 +217,8 @@ def check(pid, tier, seed):
         nm = e["name"].split("@")[0]
         if nm.startswith("history-"):
             nm = "history"
+        if nm.startswith("optfile-"):
+            nm = "optfile"
         verdict.violation("C20:%s:%s" % (what, nm), {"kind": "lifecycle", "event": e, "spec": x["spec"]},
                           "scenario %s: out-pointer %s (allowed %s), heap delta after release %d bytes, free functions return NULL: %s" % (
                               e["name"], e["outptr"], x["spec"]["outptr"], e["heap_delta"], e["free_null_ok"]))
@@ -210,8 +227,8 @@ def check(pid, tier, seed):
         nvg = valgrind_sample(cases, rnd, verdict)
     rc = verdict.finish()
     cov = {"evaluations": len(scen) + len(single), "distinct_nontrivial": nn + sum(1 for s in single if s["init"] == "object" or s["name"].startswith("newopt")),
-           "rule": "fault enumeration: %d layered-read scenarios = trees (3 layers via econf_readConfigWithCallback with an option-initialised key_file; 2 layers via econf_readDirsWithCallback, econf_readDirsHistoryWithCallback, econf_readConfigWithCallback+PARSING_DIRS) x {no fault} + for EACH consulted file in turn {callback rejection, foreign owner under econf_requireOwner, malformed line, drop-in that is a symbolic link to nowhere} and main files that are symbolic links to nowhere in each layer; + %d single calls on failing paths (missing / malformed file, rejected single file, unknown and repeated option items, no file with NULL- and option-initialised key_file, NULL arguments, merge with NULL, free(NULL)) and %d random API histories of 5..60 calls. Every scenario runs twice in one process; ASan's live-byte count around the second run must not move after the caller released all valid handles (Trace_Lifecycle: heap_delta = 0, out-pointer in OutPtrAllowed, free functions return NULL; Trace_Layers: return code, callbacks, content). ASan aborts on double free / use after free. valgrind memcheck sample: %d. non-trivial = fault at a position >= 2 or an option-initialised key_file." % (
-               len(scen), len(single) - nh, nh, nvg),
+           "rule": "fault enumeration: %d layered-read scenarios = trees (3 layers via econf_readConfigWithCallback with an option-initialised key_file; 2 layers via econf_readDirsWithCallback, econf_readDirsHistoryWithCallback, econf_readConfigWithCallback+PARSING_DIRS) x {no fault} + for EACH consulted file in turn {callback rejection, foreign owner under econf_requireOwner, malformed line, drop-in that is a symbolic link to nowhere} and main files that are symbolic links to nowhere in each layer; + %d single calls on failing paths (missing / malformed file, rejected single file, unknown and repeated option items, no file with NULL- and option-initialised key_file, NULL arguments, merge with NULL, free(NULL)) %d random conventional files of the plain / JOIN_SAME_ENTRIES / PYTHON_STYLE grammars (15 %% with a malformed line) read through an option object, listed in full and released, and %d random API histories of 5..60 calls. Every scenario runs twice in one process; ASan's live-byte count around the second run must not move after the caller released all valid handles (Trace_Lifecycle: heap_delta = 0, out-pointer in OutPtrAllowed, free functions return NULL; Trace_Layers: return code, callbacks, content). ASan aborts on double free / use after free. valgrind memcheck sample: %d. non-trivial = fault at a position >= 2 or an option-initialised key_file." % (
+               len(scen), len(single) - nh - nf, nf, nh, nvg),
            "samples": lev[:2] + lev[-1:], "exhaustive": False, "model_states": mc.distinct, "traces_validated_against_impl": len(lev) - len(mism),
            "trusted_base": ["gcc ASan allocator accounting (__sanitizer_get_current_allocated_bytes)", "TLC 1.8.0", "drv.c", "valgrind memcheck (thorough)"]}
     core.write_evidence(pid, tier, seed, "fault_enumeration", cov,
